@@ -130,6 +130,12 @@ def density_quantities(names=None):
     return Q
 
 
+def wide_range_shell(shells):
+    """configuration class of the recorded finding F2: a shell with l >= 2 whose own primitives span more than three
+    orders of magnitude (both pairs of a repulsion quartet then mix tight and diffuse primitives)"""
+    return any(s.l >= 2 and max(s.exps) / min(s.exps) >= 1.0e3 for s in shells)
+
+
 def apply_L(arr, L, axes):
     out = np.asarray(arr)
     for ax in axes:
@@ -200,7 +206,8 @@ class Explorer:
                 sc = d[:, :, None, None] * d[None, None, :, :]
                 if name == "eri_physicist":
                     sc = sc.transpose(0, 2, 1, 3)
-                self.o.cmp("%s: %s" % (label, name), b[name], pred, self.eri_tol, sc + 1e-9 * amp, key=name)
+                self.o.cmp("%s: %s" % (label, name), b[name], pred, self.eri_tol, sc + 1e-9 * amp,
+                           key=("known-F2/" if wide_range_shell(old.shells + new.shells) else "") + name)
             else:
                 # condition scale: the law applied to absolute values (no benefit from cancellation)
                 sc = amp + 1e-3 * float(np.max(np.abs(pred)) if pred.size else 0.0)
